@@ -834,6 +834,8 @@ func Run(r *rand.Rand, cfg Config, plan Plan) *Result {
 	maxOps := plan.MaxOps
 	if maxOps == 0 {
 		maxOps = 1 + r.IntN(9)
+	} else if maxOps < 0 {
+		maxOps = 0 // the planned part only
 	}
 	alive := true
 	if plan.Sparse {
